@@ -126,8 +126,15 @@ func c15Observe(dir string, c c15Case, hasRoot bool, msgs *[]string, history boo
 		quiesce(base)
 	}
 	if history {
+		// first a version that uses a name the file never had (the name lists of the file change,
+		// every cache is rebuilt while no declaration is in force), then the version without the
+		// declarations, then -- below -- the final text, which only adds declarations of names
+		// the file already uses
 		for _, n := range c.Open {
-			change(n, c15Earlier(c.Files[n]), 2)
+			change(n, c15Earlier(c.Files[n])+"2024-12-31 history\n    zz:history:"+n+"  1 ZZH\n    zz:other\n", 2)
+		}
+		for _, n := range c.Open {
+			change(n, c15Earlier(c.Files[n]), 3)
 		}
 		for _, n := range c.Open { // look at the others again while the earlier versions are in force
 			change(n, c15Earlier(c.Files[n]), 3)
